@@ -99,8 +99,8 @@ func H_c02_sender_faults() {
 // a failure the first byte written is '*'; what was handed over is identical.
 type c02Handler struct {
 	recHandler
-	conn     *vConn
-	outAt    []int
+	conn  *vConn
+	outAt []int
 }
 
 func (h *c02Handler) ProcessInbound(msgs ...*Message) error {
